@@ -55,7 +55,8 @@ def r19_2_3(ctx) -> None:
         name = s.ext[0]
         kw = {k.arg: k.value for k in s.node.keywords}
         strict = is_const(kw.get("validate"), True)
-        ok = name == "base64.b64decode" and strict and len(s.node.args) >= 2 and const_value(s.node.args[1]) == b"-_"
+        alt = s.node.args[1] if len(s.node.args) >= 2 else kw.get("altchars")
+        ok = name == "base64.b64decode" and strict and alt is not None and const_value(alt) == b"-_"
         ctx.check(ok, "R19.2", d, s.node, f"{d.short} :: {norm(s.node)[:50]}", "the base64url decoder is not base64.b64decode(s, b'-_', validate=True): characters outside the alphabet are "
                   "silently discarded (lenient mode)", "b64decode(s, altchars=b'-_', validate=True)", construct="strict decode primitive")
         # '+' and '/' are refused before altchars maps '-_' onto them
@@ -67,10 +68,22 @@ def r19_2_3(ctx) -> None:
                     tests.append(const_value(t.ast.left))
                     if dn is not None and not cfg.must_pass(cfg.entry, dn, [t]) and False:
                         pass
+        loop_form = False
+        # the same refusal written as a loop over the two characters: `for c in (b"+", b"/"): if c in s: raise`
+        for L in [n_ for n_ in cfg.nodes if n_.kind == "loop" and isinstance(n_.ast, ast.For) and isinstance(n_.ast.iter, (ast.Tuple, ast.List, ast.Set)) and isinstance(n_.ast.target, ast.Name)]:
+            vals = [const_value(x) for x in L.ast.iter.elts]
+            for t in cfg.nodes:
+                if t.kind == "test" and isinstance(t.ast, ast.Compare) and len(t.ast.ops) == 1 and isinstance(t.ast.ops[0], ast.In) and norm(t.ast.comparators[0]) == sp \
+                        and norm(t.ast.left) == L.ast.target.id and any(x is t.ast for x in ast.walk(L.ast)):
+                    bad = succ_by_label(cfg, t, "true")
+                    if not can_reach_exit(cfg, bad) and not any(L in cfg.reachable(b_) for b_ in bad) and dn is not None and cfg.dominates(L, dn):
+                        tests.extend(v for v in vals if v in (b"+", b"/"))
+                        loop_form = True
         ok2 = set(tests) == {b"+", b"/"}
-        if ok2:
+        if ok2 and not loop_form:
             # both rejections precede the decode
-            rej = [t for t in cfg.nodes if t.kind == "test" and isinstance(t.ast, ast.Compare) and const_value(t.ast.left) in (b"+", b"/")]
+            rej = [t for t in cfg.nodes if t.kind == "test" and isinstance(t.ast, ast.Compare) and (const_value(t.ast.left) in (b"+", b"/") or (
+                isinstance(t.ast.ops[0], ast.In) and norm(t.ast.comparators[0]) == sp and isinstance(t.ast.left, ast.Name)))]
             ok2 = dn is not None and dn not in cfg.reachable(cfg.entry, edge_filter=lambda a, b, lab: not (a in rej and lab == "false")) or \
                 (dn is not None and all(cfg.dominates(t, dn) or any(cfg.dominates(t2, dn) for t2 in rej) for t in rej))
         ctx.check(ok2, "R19.2", d, d.node, f"{d.short} :: '+' and '/' refused", "'+' and '/' (the standard alphabet) are not refused before decoding with altchars", "raise if b'+' in s or b'/' in s",
@@ -117,10 +130,7 @@ def r19_4_5(ctx) -> None:
     okb = len(rets) == 1
     if okb:
         t = rets[0]
-        okb = t in (f"int.from_bytes({D}, 'big')", f"int(binascii.hexlify({D}), 16)", f"int({D}.hex(), 16)")
-        if not okb:
-            m = _re.fullmatch(r"int\(''\.join\(\['%02x' % (\w+) for (\w+) in struct\.unpack\('%sB' % len\((.*)\), (.*)\)\]\), 16\)", t)
-            okb = bool(m) and m.group(1) == m.group(2) and m.group(3) == D and m.group(4) == D
+        okb = t in (f"int.from_bytes({D}, 'big')", f"int.from_bytes({D}, byteorder='big')") or _is_int_of_hex(t, D)
     ctx.check(okb, "R19.4", b2i, b2i.node, b2i.short, "base64_to_int is not the unsigned big-endian decoder of the strict base64url decoding", "int(hex of urlsafe_b64decode(s), 16)",
               construct="base64_to_int")
     # R19.5
@@ -172,6 +182,34 @@ def r19_4_5(ctx) -> None:
     ctx.check(bool(encs) and all([norm(a) for a in n_.args] + [f"{k.arg}={norm(k.value)}" for k in n_.keywords] in (["charset", "errors"], ["charset", "errors=errors"], ["encoding=charset", "errors=errors"])
                                  for n_ in encs), "R19.5", tb_, tb_.node, f"{tb_.short} :: encode", "to_bytes does not encode with (charset, errors) in that order: an unknown error-handler name "
               "turns an encoding failure into LookupError", "x.encode(charset, errors)", construct="to_bytes encode arguments")
+
+
+def _is_int_of_hex(text: str, D: str) -> bool:
+    """`int(<lower-case hex of the octets D>, 16)`: hexlify(D), D.hex(), or ''.join of a two-digit hex format of every octet of D (iterated directly or
+    through struct.unpack('<n>B', D)), with %-formatting, an f-string, format() or str.format"""
+    try:
+        e = ast.parse(text, mode="eval").body
+    except SyntaxError:
+        return False
+    if not (isinstance(e, ast.Call) and norm(e.func) == "int" and len(e.args) == 2 and const_value(e.args[1]) == 16):
+        return False
+    h = e.args[0]
+    if norm(h) in (f"binascii.hexlify({D})", f"{D}.hex()", f"hexlify({D})"):
+        return True
+    if not (isinstance(h, ast.Call) and isinstance(h.func, ast.Attribute) and h.func.attr == "join" and const_value(h.func.value) == "" and len(h.args) == 1
+            and isinstance(h.args[0], (ast.ListComp, ast.GeneratorExp)) and len(h.args[0].generators) == 1 and not h.args[0].generators[0].ifs):
+        return False
+    g = h.args[0].generators[0]
+    if not isinstance(g.target, ast.Name):
+        return False
+    b = g.target.id
+    it = norm(g.iter)
+    its = (D, f"struct.unpack('%sB' % len({D}), {D})", f"struct.unpack(f'{{len({D})}}B', {D})", f"struct.unpack('%dB' % len({D}), {D})", f"struct.unpack('{{}}B'.format(len({D})), {D})",
+           f"bytearray({D})", f"list({D})")
+    if it not in its:
+        return False
+    elt = norm(h.args[0].elt)
+    return elt in (f"'%02x' % {b}", f"f'{{{b}:02x}}'", f"format({b}, '02x')", f"'{{:02x}}'.format({b})", f"'%02x' % ({b},)")
 
 
 # pyca number constructors: slot (positional index / keyword) -> JWK member (RFC 7518 6.2 / 6.3)
